@@ -129,6 +129,19 @@ def _reload(module) -> dict:
         return {"exc": type(err).__name__, "v": {"m": DUMMY_MODULE, "js": False}}
 
 
+def _reload_results(modules) -> list:
+    """ the modules of one gene through the saved results of that gene (CDSResult.to_json / from_json) """
+    from antismash.detection.nrps_pks_domains.domain_identification import CDSResult
+    try:
+        saved = json.loads(json.dumps(CDSResult([], [], list(modules)).to_json()))
+        loaded = CDSResult.from_json(json.loads(json.dumps(saved))).modules
+        if len(loaded) != len(modules):
+            raise ValueError("number of modules changed")
+        return [{"exc": "", "v": {"m": _module(new), "js": new.to_json() == old.to_json()}} for old, new in zip(modules, loaded)]
+    except Exception as err:  # pylint: disable=broad-except
+        return [{"exc": type(err).__name__, "v": {"m": DUMMY_MODULE, "js": False}} for _ in modules]
+
+
 def _build(doms, locus, order=None):
     from antismash.detection.nrps_pks_domains.module_identification import build_modules_for_cds
     return build_modules_for_cds(_hits(doms, order), locus)
@@ -145,9 +158,11 @@ def _observe(case: dict) -> dict:
             modules = _build(inp["doms"], "g1", inp.get("order"))
             event["res"] = {"exc": "", "v": [_module(m) for m in modules]}
             event["rl"] = [_reload(m) for m in modules]
+            event["rs"] = _reload_results(modules)
         except Exception as err:  # pylint: disable=broad-except
             event["res"] = {"exc": type(err).__name__, "v": []}
             event["rl"] = []
+            event["rs"] = []
         return event
     event["up"] = [_domrec(*dom) for dom in inp["up"]]
     event["down"] = [_domrec(*dom) for dom in inp["down"]]
@@ -162,7 +177,7 @@ def _observe(case: dict) -> dict:
     for s_up, s_down in inp["strands"]:
         previous = CDSModuleInfo(_cds(s_up, False), _build(inp["up"], "g1"))
         current = CDSModuleInfo(_cds(s_down, True), _build(inp["down"], "g2"))
-        obs = {"same": s_up == s_down, "su": s_up, "sd": s_down, "rl": []}
+        obs = {"same": s_up == s_down, "su": s_up, "sd": s_down, "rl": [], "rsa": [], "rsb": []}
         try:
             merged = combine_modules(current, previous)
             after_up = [_module(m) for m in previous.modules]
@@ -175,6 +190,8 @@ def _observe(case: dict) -> dict:
                                            "qb_eq": same_down, "qb": [] if same_down else after_down}}
             if merged is not None:
                 obs["rl"] = [_reload(merged)]
+                obs["rsa"] = _reload_results(previous.modules)
+                obs["rsb"] = _reload_results(current.modules)
         except Exception as err:  # pylint: disable=broad-except
             obs["out"] = {"exc": type(err).__name__, "v": {"merged": False, "m": DUMMY_MODULE, "qa_eq": False, "qa": [],
                                                            "qb_eq": False, "qb": []}}
